@@ -25,7 +25,8 @@ def inject(scratch_repo, modules, known_ids):
             f.write(body)
             f.write("\n}\n")
         for h in harness_names(m):
-            table.append((h, "crate::%s::verif_h::%s" % (m.replace("__", "::"), h)))
+            modpath = "" if m == "lib" else m.replace("__", "::") + "::"
+            table.append((h, "crate::%sverif_h::%s" % (modpath, h)))
     rt = open(os.path.join(C.VERIF, "harness", "verif_rt.rs")).read()
     rt += "\nstatic VRT_KNOWN: &[&str] = &[%s];\n" % ", ".join('"%s"' % k for k in known_ids)
     rt += "pub(crate) fn vrt_dispatch(name: &str) -> bool {\n    match name {\n"
